@@ -126,8 +126,8 @@ def subst_exhaustive(maxlen: int):
 
 def build_case(rng) -> Dict[str, Any]:
     s = spec(rng)
-    n = max(0, len(s["args"]) + rng.choice([0, 0, 0, 0, 0, 0, -1, 1, 2]))
-    style_ok = rng.random() < 0.8
+    n = max(0, len(s["args"]) + rng.choice([0] * 10 + [-1, 1, 2]))
+    style_ok = rng.random() < 0.88
     meth = (s["methodObject"] is not None) == style_ok
     if meth:
         func = {"attr": [{"name": rng.choice(["j", "jet", "e"])}, s["name"]]}
@@ -209,12 +209,12 @@ def query_case(rng, backend: str, builtins: List[List[Any]]) -> Dict[str, Any]:
     names = rng.sample(FUNC_NAMES, rng.choice([1, 1, 2, 2, 3]))
     specs = [spec(rng, n) for n in names]
     if rng.random() < 0.05:
-        specs.append(spec(rng, names[0]))  # same name twice: the later metadata entry is in force
+        specs.append(spec(rng, names[0]))  # same name twice: the metadata attached first is in force
     bnames = [k for k, h in builtins if h != "refuse" and isinstance(h, (dict, str))]
     if rng.random() < 0.04 and "DeltaR" in bnames:
         specs.append(spec(rng, "DeltaR"))  # metadata overrides a built-in
     table: Dict[str, Any] = {k: h for k, h in builtins}
-    for s in specs:
+    for s in reversed(specs):  # the specification attached first is the one in force
         table[s["name"]] = {"spec": s}
     usable = [k for k, h in table.items() if h != "refuse"]
     wrong = rng.random() < 0.12
